@@ -16,6 +16,7 @@
  *   OP in PS PP RS TS TP (ov_pcm_seek_lap, ov_pcm_seek_page_lap, ov_raw_seek_lap, ov_time_seek_lap, ov_time_seek_page_lap);
  *   the plain twin is the lower-case op.  <half>=1: ov_halfrate(vf,1) right after open on every replay.
  * case line (crosslap): <idx> X <file1#> <file2#> <half> | ops of vf1 ... | ops of vf2 ...
+ *   <half> for crosslap may be two digits "ab": a = half-rate setting of vf1, b = of vf2 (mixed settings); one digit = both
  *   A = vf2 alone (no crosslap), B = ov_crosslap(vf1,vf2) then read-through of vf2 and afterwards of vf1,
  *   C = vf1 alone: lap source taken, then read-through (what vf1 must still deliver after the crosslap).
  * history ops: rf<n> (one ov_read_float call), rx<n> (read exactly n samples, several calls), ps pp rs ts tp PS PP RS TS TP
@@ -216,7 +217,7 @@ int main(int argc,char **argv){
   cf=fopen(cases,"r"); if(!cf)return 2;
   signal(SIGVTALRM,on_alarm);
   while(getline(&line,&cap,cf)>0){
-    char *p1,*p2=NULL,*p3=NULL,*sv,*tok; long idx; char kind; int f1,f2,half,hs,bad=0; char op[64]="";
+    char *p1,*p2=NULL,*p3=NULL,*sv,*tok; long idx; char kind; int f1,f2,half,hs,half1,half2,hs1,hs2,bad=0; char op[64]="";
     vfile *F1,*F2; struct itimerval it;
     OggVorbis_File va,vb,vb1,vc; memio ma,mb,mb1,mc; h128 ha,hb,hc,hb1; int oa,ob,oc,ob1=0;
     long rcA=0,rcB=0,tA=-1,tB=-1; rt_t RA,RB,RC1,RB1; src_t S; cmp_t cm; char vres[64]="-"; char hres[16]="ok";
@@ -231,12 +232,16 @@ int main(int argc,char **argv){
     tok=strtok_r(NULL," \n",&sv); if(!tok){ printf("%ld BADCASE\n",idx); continue; } kind=tok[0];
     tok=strtok_r(NULL," \n",&sv); if(!tok){ printf("%ld BADCASE\n",idx); continue; } f1=atoi(tok); f2=f1;
     if(kind=='X'){ tok=strtok_r(NULL," \n",&sv); if(!tok){ printf("%ld BADCASE\n",idx); continue; } f2=atoi(tok); }
-    tok=strtok_r(NULL," \n",&sv); if(!tok){ printf("%ld BADCASE\n",idx); continue; } half=atoi(tok); hs=half?1:0;
+    tok=strtok_r(NULL," \n",&sv); if(!tok){ printf("%ld BADCASE\n",idx); continue; } half=atoi(tok); hs=half?1:0; half1=half2=half;
+    if(kind=='X'&&strlen(tok)==2){ half1=tok[0]=='1'; half2=tok[1]=='1'; }
+    hs1=half1?1:0; hs2=half2?1:0; if(kind=='S'){ hs1=hs2=hs; }
     if(kind=='S'){ tok=strtok_r(NULL," \n",&sv); if(!tok||strlen(tok)>60){ printf("%ld BADCASE\n",idx); continue; } strcpy(op,tok); }
     if(f1<0||f1>=g_nfiles||f2<0||f2>=g_nfiles||(kind!='S'&&kind!='X')||(kind=='X'&&!p2)){ printf("%ld BADCASE\n",idx); continue; }
     F1=&g_files[f1]; F2=&g_files[f2];
     /* references (for the link geometry used by C) outside the watchdog */
-    if(half){ need_href(F1); need_href(F2); if(!F1->href.ok||!F2->href.ok){ printf("%ld NOHALF\n",idx); fflush(stdout); continue; } } else { need_ref(F1); need_ref(F2); }
+    need_ref(F1); need_ref(F2);
+    if(half1){ need_href(F1); if(!F1->href.ok){ printf("%ld NOHALF\n",idx); fflush(stdout); continue; } }
+    if(half2){ need_href(F2); if(!F2->href.ok){ printf("%ld NOHALF\n",idx); fflush(stdout); continue; } }
     memset(&it,0,sizeof(it)); it.it_value.tv_sec=timeout; setitimer(ITIMER_VIRTUAL,&it,NULL);
     h_init(&ha); h_init(&hb); h_init(&hc); h_init(&hb1);
 
@@ -257,18 +262,18 @@ int main(int argc,char **argv){
       if(ob||oc||memcmp(&ha,&hb,sizeof(ha))||memcmp(&ha,&hc,sizeof(ha)))strcpy(hres,"diverged");
     }else{
       /* A: vf2 alone */
-      oa=open_replay(&va,&ma,F2,half,p2,&ha,&bad);
+      oa=open_replay(&va,&ma,F2,half2,p2,&ha,&bad);
       if(oa){ printf("%ld OPENFAIL %d\n",idx,oa); fflush(stdout); continue; }
       rcA=0; tA=(long)ov_pcm_tell(&va);
       read_through(&va,&RA); ov_clear(&va);
       /* B: crosslap(vf1,vf2) */
-      ob1=open_replay(&vb1,&mb1,F1,half,p1,&hb1,&bad);
-      ob=open_replay(&vb,&mb,F2,half,p2,&hb,&bad);
+      ob1=open_replay(&vb1,&mb1,F1,half1,p1,&hb1,&bad);
+      ob=open_replay(&vb,&mb,F2,half2,p2,&hb,&bad);
       rcB=ov_crosslap(&vb1,&vb); tB=(long)ov_pcm_tell(&vb);
       read_through(&vb,&RB); read_through(&vb1,&RB1); ov_clear(&vb); ov_clear(&vb1);
       /* C: vf1 alone, lap source consumed, then what it still delivers */
-      oc=open_replay(&vc,&mc,F1,half,p1,&hc,&bad);
-      get_src(&vc,F1,hs,&S);
+      oc=open_replay(&vc,&mc,F1,half1,p1,&hc,&bad);
+      get_src(&vc,F1,hs1,&S);
       if(S.status==S_EOSNOSTATE||S.status==S_OPENMID||S.status==S_ERR)strcpy(vres,"unjudged");
       else{ read_through(&vc,&RC1); same_rt(&RC1,&RB1,vres,sizeof(vres)); }
       ov_clear(&vc);
@@ -276,7 +281,7 @@ int main(int argc,char **argv){
     }
     if(bad){ printf("%ld BADOP\n",idx); fflush(stdout); rt_free(&RA); rt_free(&RB); rt_free(&RC1); rt_free(&RB1); src_free(&S); continue; }
     /* new position geometry from A's observations: link of the first audio delivered after the plain seek */
-    if(RA.nseg>0){ k2=RA.s[0].link; ch2=RA.s[0].ch; n2=bs0_of(f2,k2)>>(1+hs); avail=RA.first; }
+    if(RA.nseg>0){ k2=RA.s[0].link; ch2=RA.s[0].ch; n2=bs0_of(f2,k2)>>(1+hs2); avail=RA.first; }
     n=(S.n1>0&&S.n1<n2)?S.n1:n2;
     if(rcA==0&&rcB==0&&RA.nseg>0&&S.n1>0){
       compare(&RA,&RB,&S,n,win_of(2*n),&cm);
